@@ -408,6 +408,21 @@ Proof.
     apply (int_accept _ _ _ _ Hc). exact E1.
 Qed.
 
+(* ------------------------------------------------------------------------------------------------ assignment: Attribute.__set__ *)
+(* Gen/C08Conv.v:attr_set_outcome is produced by scanning Attribute.__set__: only the session/deleted guards may precede
+   the call of attr.validate.  Hence an assignment is validated whatever value (valid or not, of whatever type) the object holds. *)
+Theorem assign_validates V (validate : V -> result V) held v : attr_set_outcome validate held v = validate v.
+Proof. reflexivity. Qed.
+
+Theorem assign_state_independent V (validate : V -> result V) held held' v :
+  attr_set_outcome validate held v = attr_set_outcome validate held' v.
+Proof. reflexivity. Qed.
+
+Theorem assign_int uint64 d c held v :
+  init_of uint64 d = Ok c ->
+  (attr_set_outcome (int_validate (ic_min c) (ic_max c)) held v = Ok v <-> in_bounds d v).
+Proof. intros H. rewrite assign_validates. apply (int_accept _ _ _ _ H). Qed.
+
 (* non-vacuity: size=16, min=0, max=300 is accepted as a declaration, accepts 0 and 300, rejects -1 and 301 *)
 Example c08_nonvacuous_int :
   exists c, init_of true (mk_int_decl (Some 16) (Some false) (Some 0) (Some 300)) = Ok c
